@@ -36,6 +36,29 @@ def run_both(cases, tag, timeout=3000):
     return out, {"t_impl": t_impl, "t_model": t_model, "casefile": cf}
 
 
+def run_impl_only(cases, tag, timeout=3000):
+    """histories outside the model's value domain: the implementation alone (same result shape as run_both, model = impl)"""
+    os.makedirs(os.path.join(vlib.BUILD, "cases"), exist_ok=True)
+    cf = os.path.join(vlib.BUILD, "cases", tag + ".case")
+    with open(cf, "w") as f:
+        for cid, lines in cases:
+            f.write("case %s\n" % cid)
+            for l in lines:
+                f.write(l + "\n")
+    vlib.run_impl("annotate", cf, cf + ".orc", timeout=timeout)
+    t_impl = vlib.run_impl("sys", cf, cf + ".impl", timeout=timeout)
+    impl = vlib.split_cases(vlib.read_lines(cf + ".impl"))
+    if len(impl) != len(cases):
+        raise vlib.CheckError("executor output shape: %d cases, impl %d" % (len(cases), len(impl)))
+    out = []
+    for (cid, lines), ib in zip(cases, impl):
+        if len(ib) != len(lines) + 1:
+            raise vlib.CheckError("case %s: %d ops, impl %d lines" % (cid, len(lines), len(ib) - 1))
+        obs = [parse_obs(x) for x in ib[1:]]
+        out.append((cid, lines, obs, obs))
+    return out, {"t_impl": t_impl, "casefile": cf}
+
+
 def first_mismatch(lines, iobs, mobs, fields):
     """first step at which implementation and model differ on one of the projected fields"""
     for k, (op, a, b) in enumerate(zip(lines, iobs, mobs)):
